@@ -3,8 +3,10 @@
 Correspondence: the real `StaticFileHandler.handle` (and, for a sample of every case, the real
 `GeminiServerProtocol` on a fake transport, so that the request-line glue is covered) on generated
 document trees x request-path spellings, against `Fs.handle` over the executable symlink-tree
-model in Lean; `canonical_path` against `Fs.Canon.canonSegs`; the port of
-`posixpath._joinrealpath` against the kernel.
+model in Lean; the same with ONE long-lived handler while the tree is edited between rounds of
+requests (`sequence`: the model keeps no state, every answer is compared with `Fs.handle` on the
+tree as it is on disk at that moment); `canonical_path` against `Fs.Canon.canonSegs`; the port
+of `posixpath._joinrealpath` against the kernel.
 """
 from __future__ import annotations
 
@@ -33,6 +35,7 @@ ASSUMPTIONS = [
     "the executable symlink tree (port of posixpath._joinrealpath of Python 3.12.1, kernel-style walk, ELOOP probe, ENAMETOOLONG) that instantiates the OS for the driver is validated only by this differential run against the kernel",
     "file contents are identified by a per-file sentinel; MIME type selection and the exact text of directory listings beyond the set of listed names are compared but not covered by theorems",
     "PermissionError branches cannot be provoked (the harness runs as root); they are modelled (Fail.denied) but not exercised",
+    "the handler keeps no state between requests: the theorems are about one request on one OS state; that an answer depends on nothing but the tree at that moment and the request (no cache of locations, contents or misses) is tested only by the `sequence` family, and only for edits made between requests, not during one",
 ]
 LEVEL_TEXT = (
     "partial: proved for every OS behaviour, configuration and request path over the Lean model — a 20 response carries the content "
@@ -45,7 +48,8 @@ LEVEL_TEXT = (
     "proved: the OS contract (the value of resolve(strict=True) is fully resolved, reading through a path = reading through its "
     "resolution) — the correspondence run compares the location the model claims with os.path.realpath of the file whose sentinel "
     "was delivered, which is how the non-strict resolve() escape (57bd787) was found.  Only differentially tested: the tree port of _joinrealpath/the kernel walk, canonical_path against its Lean "
-    "definition, the URL glue (GeminiRequest.from_line, GeminiServerProtocol).")
+    "definition, the URL glue (GeminiRequest.from_line, GeminiServerProtocol), and that a long-lived handler answers from the tree as it is "
+    "now (entries replaced by symlinks leading outside, removed, re-created, swapped between rounds of the same requests).")
 LEVEL_NOTE = "theorems over an abstract OS + canonical_path model; symlink semantics of the kernel and the Python glue are tied by correspondence only"
 TECHNIQUE = "Lean 4 proofs over an executable model (abstract OS, code-point model of canonical_path) + differential testing of the real StaticFileHandler on generated symlink trees x path spellings against the compiled model, with a direct sentinel oracle"
 
